@@ -190,6 +190,32 @@ theorem slice_zero (b : Nat) (y z : Str) (hy : y.length = b) : slice 0 b (y ++ z
 theorem sliceFrom_append (a : Nat) (x z : Str) (hx : x.length = a) : sliceFrom a (x ++ z) = z := by
   unfold sliceFrom; subst hx; simp
 
+/-- cutting one field out of a record written field by field -/
+theorem slice_flatten (pre : List Str) (f : Str) (post : List Str) (a b : Nat)
+    (ha : pre.flatten.length = a) (hb : b = a + f.length) :
+    slice a b ((pre ++ f :: post).flatten) = f := by
+  have : (pre ++ f :: post).flatten = pre.flatten ++ (f ++ post.flatten) := by simp
+  rw [this]
+  exact slice_mid a b _ _ _ ha (by omega)
+
+/-- `(s + r).split() == s.split() + r.split()` when `r` is empty or starts with a blank -/
+theorem splitGo_append_brk (s r : Str) (hr : Brk r) : ∀ cur, splitGo cur (s ++ r) = splitGo cur s ++ splitGo [] r := by
+  induction s with
+  | nil =>
+    intro cur
+    rcases hr with h | ⟨c, r', h, hc⟩
+    · subst h; simp [splitGo]
+    · subst h
+      by_cases hcur : cur.isEmpty = true <;> simp [splitGo, hc, hcur]
+  | cons c s ih =>
+    intro cur
+    by_cases hc : isWs c = true
+    · by_cases hcur : cur.isEmpty = true <;> simp [splitGo, hc, hcur, ih]
+    · simp [splitGo, hc, ih]
+
+theorem splitWs_append_brk (s r : Str) (hr : Brk r) : splitWs (s ++ r) = splitWs s ++ splitWs r :=
+  splitGo_append_brk s r hr []
+
 theorem length_spaces (n : Nat) : (spaces n).length = n := by simp [spaces]
 theorem length_rjust (w : Nat) (s : Str) (h : s.length ≤ w) : (rjust w s).length = w := by
   simp [rjust, spaces]; omega
